@@ -174,6 +174,9 @@ func (s *Server) livesimHandlerFunc(w http.ResponseWriter, r *http.Request) {
 				http.Error(w, tooEarly.Error(), http.StatusTooEarly)
 			case errors.Is(err, errGone):
 				http.Error(w, "Gone", http.StatusGone)
+			case errors.Is(err, errBadRequest):
+				http.Error(w, err.Error(), http.StatusBadRequest)
+				return
 			default:
 				http.Error(w, "writeSegment", http.StatusInternalServerError)
 				return
